@@ -265,7 +265,8 @@ class Ctx:
         if syns and any(isinstance(x, ast.Starred) for x in call.args) or syns and any(k.arg is None for k in call.keywords) or syns and not isinstance(call.func, ast.Attribute):
             # a call made through a callable value (`spawner(*args, **kwargs)` inside a helper, `factory()` of a partial): read off the
             # stand-in call that spells out callee and arguments; each argument remembers the frame it was written in
-            got = [self.call_arg(s_, f, param) for s_ in syns if s_ is not call]
+            mine = [s_ for s_ in syns if s_ is not call and id(s_) in self.an.syn_callee and f in self.an.syn_callee[id(s_)].targets]
+            got = [self.call_arg(s_, f, param) for s_ in (mine or [s_ for s_ in syns if s_ is not call])]
             if got and all(g_ is not None for g_ in got) and len({ast.dump(g_) for g_ in got}) == 1:
                 return got[0]
             if got:
